@@ -19,12 +19,15 @@ PROBES = [
     "a = (5 <m> /* c */, 6)\nEND\n", "a = {3 <kg> /* c */}\nEND\n", "a = (1 <m>, 2 <s>) <q>\nEND\n",
     # units
     "a = 5 <>\nEND\n", "a = 5 < >\nEND\n", "a = (1, 2 <\t>)\nEND\n", "a = 5 <m{x}>\nEND\n", "a = 5 <m\nEND\n", "a = 0 <m>\nb = -0.0 <deg>\nEND\n",
-    "a = 'x' <m>\nEND\n", "a = 5 <m> <s>\nEND\n",
+    "a = 'x' <m>\nEND\n", "a = 5 <m> <s>\nEND\n", "a = FALSE <m>\nEND\n", "a = (TRUE <m>, 1)\nEND\n", "a = NULL <m>\nEND\n", "a = 2001-01-01 <m>\nEND\n",
     # braces, quotes and format characters in messages
     "a = (1 '{x}', 2)\nEND\n", "a = 1 \"{x}\"\nEND\n", "a = 1 '{}'\nEND\n", "b = (1, 2}\nEND\n", "b = }\nEND\n", "}\na = 1\nEND\n", "a = %s\nEND\n", "a = {0}\nEND\n",
     # numbers at the edges
     "a = %s\nEND\n" % BIG, "a = (%s, 1)\nEND\n" % BIG, "%s = 1\nEND\n" % BIG, "a = 1.25e400\nEND\n", "a = 2.5e-400\nEND\n", "a = -1e+16\nb = 1.5E+3\nEND\n",
     "a = 16#%s#\nEND\n" % ("F" * 300), "a = 1e\nEND\n", "a = +\nEND\n", "a = 1.5.2\nEND\n", "a = 0x1F\nEND\n",
+    # long bare words (a recogniser that backtracks must still give up in time)
+    "a = %s-\nEND\n" % ("x" * 40), "a = %s.b\nEND\n" % ("ab1" * 14), "a = %s_\nEND\n" % ("x" * 36), "%s- = 1\nEND\n" % ("k" * 40),
+    "a = %s\nEND\n" % ("1" * 60 + "e"), "a = %s\nEND\n" % ("12:" * 20), "a = %s\nEND\n" % ("2001-" * 12),
     # comments
     "a = 1 /* files live in data/*/ b = 2\nEND\n", "a = 1 /**/ b = 2\nEND\n", "/**/\na = 1\nEND\n", "a = 1 /* x /*/ b = 2 /* y */\nEND\n", "a = 1 /* unterminated\nEND\n",
     "a = /* c */ 1\nEND\n", "a /* c */ = 1\nEND\n", "/* only a comment */\n", "a = 1 # c\nEND\n", "a = 1 #\nb = 2\nEND\n", "#\na = 1\nEND\n", "a = 1 # unterminated", "a = 1 /* c */",
